@@ -3,6 +3,7 @@ import re
 
 from ..core import AnalysisError
 from .. import cfront as C
+from .. import cgsa, gsa
 
 EXPLANATION = ('clang AST rules over gthash.c, gitypelib.c, girmodule.c, girepository.c: every non-NULL result of the three '
                'directory lookups is control-dependent on strcmp(key, string-of-that-entry) == 0; the hash result is '
@@ -40,6 +41,7 @@ def check(ctx):
     # ------------------------------------------------------------------ R1 hit is verified
     r1 = ctx.rule('R1', 'non-NULL lookup results are control-dependent on strcmp(key, string of that entry) == 0', floor=6)
     count_fields = {}
+    NULLS = ('0', '((void*)0)', 'NULL', '')
     for fname, keyparam in (('g_typelib_get_dir_entry_by_name', 'name'), ('g_typelib_get_dir_entry_by_gtype_name', 'gtype_name'),
                             ('g_typelib_get_dir_entry_by_error_domain', 'error_domain')):
         f = tl.func(fname)
@@ -47,112 +49,95 @@ def check(ctx):
         params = [p['name'] for p in tl.params(f)]
         if keyparam not in params:
             raise AnalysisError('%s lost its key parameter %s' % (fname, keyparam))
-        # values derived from the key parameter (domain_string = g_quark_to_string (error_domain))
-        keyvars = {keyparam}
-        for d in C.walk(b):
-            if d.get('kind') == 'VarDecl' and C.kids(d):
-                if keyparam in ns(tl.text_of(C.kids(d)[-1])):
-                    keyvars.add(d['name'])
-        for l, r, st in C.assignments(b):
-            if C.declref(l) and keyparam in ns(tl.text_of(r)):
-                keyvars.add(C.declref(l))
-        # strings fetched from the entry under test
-        entry_strings = {}
-        for l, r, st in C.assignments(b):
-            # g_typelib_get_string is a macro in this tree and a function in others: accept both via the source text
-            m_ = re.match(r'g_typelib_get_string\(typelib,(.*)\)$', ns(tl.text_of(r)))
-            if C.declref(l) and m_:
-                entry_strings[C.declref(l)] = m_.group(1)
-        rets = [n for n in C.walk(b) if n.get('kind') == 'ReturnStmt']
-        nonnull = [n for n in rets if ns(tl.text_of(C.kids(n)[0])) not in ('NULL', '((void*)0)', '0')]
+        LS = cgsa.summarise(ctx, TL, fname, opaque=('g_typelib_get_dir_entry', 'get_section_by_id'))
+        nonnull = [e for e in LS.effects if e.kind == 'return' and e.fn == fname and e.value not in NULLS]
         if not nonnull:
             raise AnalysisError('%s has no non-NULL return' % fname)
-        for n in nonnull:
+        for e in nonnull:
             ok = False
-            for cond, pol, origin in C.guards(tl, n):
-                c = C.strip(cond)
-                if not pol or c.get('kind') != 'BinaryOperator' or c.get('opcode') != '==':
+            for a_ in gsa.atoms(e.cond):
+                mm = re.match(r'^strcmp\((.*)\)$', a_)
+                if not mm:
                     continue
-                l, r = C.kids(c)
-                call, zero = (l, r) if C.callee(C.strip(l)) == 'strcmp' else (r, l)
-                if C.callee(C.strip(call)) != 'strcmp' or C.int_value(zero) != 0:
-                    continue
-                args = [C.declref(a) for a in C.call_args(C.strip(call))]
-                if any(a in keyvars for a in args) and any(a in entry_strings for a in args):
+                inside = mm.group(1)
+                uses_key = re.search(r'(^|\W)%s(\W|$)' % re.escape(keyparam), inside) is not None
+                uses_entry = e.value in inside
+                if uses_key and uses_entry and not gsa.can_hold(e.cond, {a_: True}):
                     ok = True
-            r1.check(ok, '%s: return %s' % (fname, ns(tl.text_of(C.kids(n)[0]))), TL, tl.line(n),
+            r1.check(ok, '%s: return %s' % (fname, e.value[:50]), TL, e.line,
                      '%s can return an entry without comparing the requested key with that entry\'s own string: a perfect-hash '
                      'hit (or a scan) for an absent key would be reported as some other entry' % fname,
-                     detail={'compared strings': entry_strings})
-        # which header field bounds the search
+                     detail=[a_[:120] for a_ in gsa.atoms(e.cond) if a_.startswith('strcmp(')])
         fields = set()
         for m in C.walk(b):
             if m.get('kind') == 'MemberExpr' and m.get('name') in ('n_entries', 'n_local_entries'):
                 fields.add(m['name'])
+        for hn in LS.inlined:
+            for m in C.walk(tl.body(tl.func(hn))):
+                if m.get('kind') == 'MemberExpr' and m.get('name') in ('n_entries', 'n_local_entries'):
+                    fields.add(m['name'])
         count_fields[fname] = fields
     # both branches exist in by_name
     f = tl.func('g_typelib_get_dir_entry_by_name')
-    srch = C.calls(tl.body(f), '_gi_typelib_hash_search')
-    loops = [n for n in C.walk(tl.body(f)) if n.get('kind') == 'ForStmt']
-    r1.check(len(srch) == 1 and len(loops) == 1, 'indexed lookup and linear fallback both present', TL, tl.line(f),
+    BN = cgsa.summarise(ctx, TL, 'g_typelib_get_dir_entry_by_name', opaque=('g_typelib_get_dir_entry', 'get_section_by_id'))
+    srch = [e for e in BN.effects if e.kind == 'call' and e.target == '_gi_typelib_hash_search']
+    scan = [e for e in BN.effects if e.kind == 'return' and e.loops and e.value not in NULLS]
+    r1.check(len(srch) == 1 and len(scan) >= 1, 'indexed lookup and linear fallback both present', TL, tl.line(f),
              'g_typelib_get_dir_entry_by_name lost its hash branch or its linear fallback')
     if srch:
-        g = [ns(tl.text_of(c)) + ('' if pol else '=F') for c, pol, o in C.guards(tl, srch[0])]
-        r1.check(g == ['dirindex==NULL=F'], 'index used exactly when the section exists', TL, tl.line(srch[0]), 'hash search guarded by %s' % g, detail=g)
-        a = C.call_args(srch[0])
-        idx = None
-        for l, r, st in C.assignments(tl.body(f)):
-            if C.strip(r) is srch[0] or any(x is srch[0] for x in C.walk(r)):
-                idx = C.declref(l)
-        ge = [c for c in C.calls(tl.body(f), 'g_typelib_get_dir_entry') if idx and ns(tl.text_of(C.call_args(c)[1])) == '%s+1' % idx]
-        r1.check(C.declref(a[1]) == 'name' and bool(ge), 'hash result used as 0-based index of the 1-based directory', TL, tl.line(srch[0]),
+        SEC = 'get_section_by_id(typelib,GI_SECTION_DIRECTORY_INDEX)'
+        secs = [a_ for a_ in BN.atoms() if a_.startswith('get_section_by_id(') and 'DIRECTORY_INDEX' in a_]
+        r1.check(len(secs) == 1 and gsa.equiv(srch[0].cond, gsa.atom(secs[0])), 'index used exactly when the section exists', TL, srch[0].line, 'hash search reached when %s' % gsa.show(srch[0].cond)[:200],
+                 detail=gsa.show(srch[0].cond)[:200])
+        ge = [e for e in BN.effects if e.kind == 'call' and e.target == 'g_typelib_get_dir_entry' and len(e.args) > 1 and re.match(r'^(\(\w+\))?_gi_typelib_hash_search\(.*\)\+1$', e.args[1])]
+        r1.check(len(srch[0].args) > 1 and srch[0].args[1] == 'name' and bool(ge), 'hash result used as 0-based index of the 1-based directory', TL, srch[0].line,
                  'index returned by the hash is not converted to the directory\'s 1-based numbering')
 
     # ------------------------------------------------------------------ R2 bounded index
     r2 = ctx.rule('R2', 'hash value clamped (>= n_entries -> 0) before it indexes the table', floor=3)
     f = gh.func('_gi_typelib_hash_search')
     b = gh.body(f)
-    subs = [n for n in C.walk(b) if n.get('kind') == 'ArraySubscriptExpr']
-    if len(subs) != 1:
-        raise AnalysisError('_gi_typelib_hash_search: expected one table[...] access')
-    ivar = C.declref(C.kids(subs[0])[1])
-    clamp = None
-    for n in C.kids(b):
-        if n.get('kind') == 'IfStmt':
-            cond = C.strip(C.kids(n)[0])
-            if cond.get('kind') == 'BinaryOperator':
-                l, r = [C.declref(x) for x in C.kids(cond)]
-                op = cond.get('opcode')
-                if (l, r) == (ivar, 'n_entries') or (r, l) == (ivar, 'n_entries'):
-                    clamp = (n, op if l == ivar else {'>=': '<=', '>': '<', '<=': '>=', '<': '>'}.get(op, op))
-    if clamp is None:
-        r2.fail('clamp present', GH, gh.line(f), 'the hash value is not compared with n_entries before indexing the table')
-    else:
-        n, op = clamp
-        r2.check(op == '>=', 'clamp uses >=', GH, gh.line(n),
-                 'the hash value is clamped with `%s n_entries`: cmph can return exactly n_entries for a string that is not a key, and '
-                 'table[n_entries] is one element past the index' % op, detail='offset >= n_entries')
-        asg = [(C.declref(l), C.int_value(r)) for l, r, st in C.assignments(C.kids(n)[1])]
-        r2.check(asg == [(ivar, 0)], 'out-of-range value replaced by a valid index', GH, gh.line(n), 'clamp branch does %s' % asg)
-        kb = C.kids(b)
-        order = [x for x in kb if x is n or any(y is subs[0] for y in C.walk(x))]
-        r2.check(len(order) == 2 and order[0] is n, 'clamp precedes the access', GH, gh.line(n), 'table access is not after the clamp')
-        later = [st for l, r, st in C.assignments(b) if C.declref(l) == ivar and gh.line(st) > gh.line(n)
-                 and not any(x is st for x in C.walk(n))]
-        r2.check(not later, 'index not modified after the clamp', GH, gh.line(n), 'offset reassigned after the clamp')
+    HS = cgsa.summarise(ctx, GH, '_gi_typelib_hash_search')
+    nent = HS.P(2)
+    rets = [e for e in HS.effects if e.kind == 'return']
+    if not rets:
+        raise AnalysisError('_gi_typelib_hash_search: no return found')
+    seen_hash = False
+    for e in rets:
+        mm = re.match(r'^(.*)\[(.*)\]$', e.value)
+        if not mm:
+            r2.fail('result is a table element', GH, e.line, '_gi_typelib_hash_search returns %s' % e.value[:80])
+            continue
+        idx = mm.group(2)
+        if idx == '0':
+            r2.ok('out-of-range value replaced by a valid index', GH, e.line)
+            continue
+        seen_hash = seen_hash or 'cmph_search_packed(' in idx
+        INR = '%s < %s' % (idx, nent)
+        r2.check(INR in gsa.atoms(e.cond) and not gsa.can_hold(e.cond, {INR: False}), 'clamp uses >=', GH, e.line,
+                 'table[%s] is read when %s: cmph can return exactly n_entries (or more) for a string that is not a key, and table[n_entries] is one element '
+                 'past the index' % (idx[:40], gsa.show(e.cond)[:120]), detail='index < n_entries required')
+    r2.check(seen_hash and any(re.search(r'\[0\]$', e.value) for e in rets), 'clamp present', GH, gh.line(f), 'the hash value is not compared with n_entries before indexing the table')
 
     # ------------------------------------------------------------------ R3 builder / search layout agreement
     r3 = ctx.rule('R3', 'builder and search agree on layout (dirmap offset at 0, MPH at +4, guint16 table) and on the counted entries', floor=6)
     pk = gh.func('_gi_typelib_hash_builder_pack')
     pb, sb = gh.body(pk), b
     pa = {ns(gh.text_of(l)): ns(gh.text_of(r)) for l, r, st in C.assignments(pb)}
-    sa = {ns(gh.text_of(l)): ns(gh.text_of(r)) for l, r, st in C.assignments(sb)}
-    r3.check(pa.get('*((guint32*)mem)') == 'builder->dirmap_offset' and sa.get('dirmap_offset') == '*((guint32*)memory)', 'dirmap offset stored/read at byte 0', GH,
-             gh.line(pk), 'pack: %s / search: %s' % (pa.get('*((guint32*)mem)'), sa.get('dirmap_offset')))
-    r3.check(pa.get('packed_mem') == '(guint8*)(mem+sizeof(guint32))' and sa.get('mph') == '((guint32*)memory)+1', 'MPH stored/read at byte 4', GH, gh.line(pk),
-             'pack: %s / search: %s' % (pa.get('packed_mem'), sa.get('mph')))
-    r3.check(pa.get('table') == '(guint16*)(mem+builder->dirmap_offset)' and sa.get('table') == '(guint16*)(memory+dirmap_offset)', 'table position and element type', GH,
-             gh.line(pk), 'pack: %s / search: %s' % (pa.get('table'), sa.get('table')))
+    HK = cgsa.CSummary(gh, '_gi_typelib_hash_search', keep_ptr_casts=True)
+    memp = HK.P(0)
+    M = re.escape(memp)
+    cm = [e for e in HK.effects if e.kind == 'call' and e.target == 'cmph_search_packed']
+    kret = [e for e in HK.effects if e.kind == 'return']
+    DM = r'\*\(?\(guint32\*\)%s\)?' % M
+    r3.check(pa.get('*((guint32*)mem)') == 'builder->dirmap_offset' and kret and all(re.search(DM, e.value) for e in kret), 'dirmap offset stored/read at byte 0', GH,
+             gh.line(pk), 'pack: %s / search returns: %s' % (pa.get('*((guint32*)mem)'), [e.value[:80] for e in kret][:2]))
+    mph_ok = len(cm) == 1 and bool(re.match(r'^(\(guint8\*\))?\(?(\(\(guint32\*\)%s\)\+1|\(guint32\*\)%s\+1|%s\+sizeof\(guint32\)|\(%s\+sizeof\(guint32\)\))\)?$' % (M, M, M, M), cm[0].args[0] if cm and cm[0].args else ''))
+    r3.check(pa.get('packed_mem') == '(guint8*)(mem+sizeof(guint32))' and mph_ok, 'MPH stored/read at byte 4', GH, gh.line(pk),
+             'pack: %s / search: %s' % (pa.get('packed_mem'), [e.args[:1] for e in cm]))
+    tab_ok = bool(kret) and all(re.match(r'^\(?\(guint16\*\)\(%s\+%s\)\)?\[' % (M, DM), e.value) for e in kret)
+    r3.check(pa.get('table') == '(guint16*)(mem+builder->dirmap_offset)' and tab_ok, 'table position and element type', GH,
+             gh.line(pk), 'pack: %s / search: %s' % (pa.get('table'), [e.value[:80] for e in kret][:2]))
     pr = gh.func('_gi_typelib_hash_builder_prepare')
     pra = {ns(gh.text_of(l)): ns(gh.text_of(r)) for l, r, st in C.assignments(gh.body(pr))}
     r3.check(pra.get('builder->packed_size') == 'builder->dirmap_offset+(num_elts*sizeof(guint16))' and 'sizeof(guint32)+cmph_packed_size' in pra.get('offset', ''),
